@@ -167,7 +167,7 @@ def check(rep, tier, seed):
         want = f"err SerTransientCtor({vn.encode().hex()},{tn.encode().hex()})"
         if tr and enc_part != want:
             bad.append((l, a, f"a transient constructor is not refused with {want}"))
-        if not tr and not enc_part.startswith("ok "):
+        if not tr and not enc_part.startswith("ok ") and enc_part != "err UnsupportedCharacter":
             bad.append((l, a, "a persisted constructor is refused"))
     rep.coverage["transient_constructor_cases"] = len(tcs)
     C.proof_coverage(rep, ob, "C14")
